@@ -10,7 +10,7 @@ TRUST = 'trusted base: simulated TCP (no reordering/duplication/short writes, by
 TECHNIQUE = 'deterministic simulation with byte- and connection-level fault injection at enumerated sites, virtual-time termination bound'
 LEVEL = 'fault_enumeration'
 BUDGET = {'quick': 200, 'thorough': 3000}
-NRANDOM = {'quick': 1500, 'thorough': 20000}
+NRANDOM = {'quick': 3000, 'thorough': 20000}
 RULE = ('for each transcript archetype (ed25519-only, RSA family, RSA/Ed25519 certificates, DH-group probe, group exchange in three selection '
         'styles, SSH-1, client role) an honest run yields the (connection, message) sites; cases place one fault (quick: seeded sample; '
         'thorough: systematic sweep = truncate-and-close / truncate-and-stall / reset at byte offsets, every length field set to '
